@@ -86,9 +86,11 @@ type c20Search struct {
 	name      string
 	counter   *int
 
-	writercache int
-	seqstates   bool
-	permbatch   int
+	depthoverride int
+	prefix        []string // the search starts after these events (their states are covered by the search without prefix)
+	writercache   int
+	seqstates     bool
+	permbatch     int
 }
 
 func (s *c20Search) newPure() *vfPure {
@@ -196,11 +198,17 @@ func (s *c20Search) run() {
 		p    *vfPure
 	}
 
-	root := s.newPure()
-	frontier := []node{{p: root}}
-	seen := map[string]bool{root.key(): true}
-
 	d0 := s.env.domain(s.maxblocks, nil)
+
+	root := s.newPure()
+
+	for _, ev := range s.prefix {
+		root.apply(s.env, ev)
+		root.afterReads(d0)
+	}
+
+	frontier := []node{{p: root, hist: s.prefix}}
+	seen := map[string]bool{root.key(): true}
 
 	for depth := 1; depth <= s.depth && len(frontier) > 0; depth++ {
 		var next []node
@@ -293,12 +301,23 @@ func TestVerifC20(t *testing.T) {
 		{name: "cache16-writer-cache1-batch3", cachesize: 16, writercache: 1, seqstates: true, permbatch: 3},
 	}
 
+	// the same from a chain whose genesis block is in the permanent database and whose states were read from there
+	searches = append(searches, &c20Search{
+		name: "cache16-writer-cache1-batch3-from-merged-genesis", cachesize: 16, writercache: 1, seqstates: true, permbatch: 3,
+		prefix: []string{"WG", "WO", "m"}, depthoverride: vlib.Pick(r, 3, 4),
+	})
+
 	if r.Thorough() {
 		searches = append(searches, &c20Search{name: "cache0"}, &c20Search{name: "cache16", cachesize: 16})
 	}
 
 	for _, s := range searches {
 		s.r, s.env, s.maxblocks, s.depth, s.counter = r, env, maxblocks, depth, &counter
+
+		if s.depthoverride > 0 {
+			s.depth = s.depthoverride
+		}
+
 		s.run()
 	}
 
